@@ -6,3 +6,5 @@ package verifsim
 const lockInstrumented = false
 
 func setBatchLockYield(func(site string)) {}
+
+func setBeforeGC(func()) {}
